@@ -198,3 +198,165 @@ package transport
 //@   ensures result_1 == nil ==> len(*result_0) >= 12
 //@   loop 0:
 //@     invariant payload != nil && len(*payload) == 4095 && cap(*payload) >= 4095 && r != nil && allocated(payload)
+
+// ---------------------------------------------------------------------------------------------
+// ReuseConnTransport / reusableConn (TCP / DoT without pipelining).
+//@ type reusableConn
+//@   immutable c, t, closeNotify
+//@   lock m protects waitingResp
+//@   invariant m: self.waitingResp != nil ==> cap(self.waitingResp) >= 1
+//@   shared closeErr stable closed(self.closeNotify) ==> self.closeErr != nil
+//@   invariant self.c != nil && self.t != nil && self.closeNotify != nil
+
+//@ type ReuseConnTransport
+//@   immutable dialFunc, dialTimeout, idleTimeout, logger, ctx, ctxCancel, testWaitRespTimeout
+//@   lock m protects closed, idleConns, conns
+//@   invariant m: self.idleConns != nil && self.conns != nil
+//@   invariant m: forall k *reusableConn :: (k in self.idleConns) ==> k != nil
+
+// reusableConn.exchange (C01, C02, C07): the 1-buffered reply slot is installed before the query is
+// written; the reply is taken from that slot's channel only; exactly one of reply / error is
+// returned; a close observed while waiting is followed by a last look into the reply channel.
+// The function panics only if the slot is occupied, i.e. if two exchanges ran on one connection
+// (excluded by the idle-set discipline of getIdleConn / setIdle, not re-proved here).
+//@ func (c *reusableConn) exchange [C01, C02, C07]
+//@   log reuseConnExchange
+//@   requires c != nil && ctx != nil && q != nil && ctx.Done() != c.closeNotify
+//@   modifies *
+//@   panics when atlock(c.waitingResp != nil)
+//@   ensures[C07] (result_0 != nil) != (result_1 != nil)
+//@   ensures[C01] result_0 != nil ==> lastarg(chanRecv, 0) == respChan && result_0 == lastret(chanRecv, 0) && len(*result_0) >= 12
+//@   ensures[C02] calls(Write) <= 1 && (calls(Write) == 1 ==> callpos(unlock, 0) < callpos(Write, 0) && atunlock(c.waitingResp) == respChan && cap(respChan) >= 1 && fresh(respChan))
+//@   ensures[C02] result_0 == nil && calls(Write) == 1 && ret(Write, 0, 1) == nil && lastpos(chanRecv) >= 0 && lastarg(chanRecv, 0) == c.closeNotify ==> lastpos(pollEmpty) > lastpos(chanRecv) && lastarg(pollEmpty, 0) == respChan
+
+// reusableConn.readLoop (C01, C02): a reply is handed to whoever occupies the slot at that moment
+// and the slot is emptied in the same critical section; a reply with nobody waiting closes the
+// connection; the connection is put back into the idle set before the reply is handed over.
+// The hand-off does not block; it panics only if the 1-buffered channel taken from the slot is
+// already full, i.e. if a second reply were sent for one exchange — excluded because the slot is
+// emptied when the channel is taken (ownership argument, not re-proved here).
+//@ func (c *reusableConn) readLoop [C01, C02]
+//@   requires c != nil
+//@   modifies *
+//@   panics when calls(pollFull) > 0
+//@   loop 0:
+//@     invariant c != nil
+//@     each[C01] iter_calls(ReadRawMsgFromTCP) == 1 && iter_calls(chanSend) == 1 && iter_arg(chanSend, 0, 0) == respChan && iter_arg(chanSend, 0, 1) == resp && iter_calls(ReleaseBuf) == 0
+//@     each[C01] respChan == atlock(c.waitingResp) && atunlock(c.waitingResp) == nil
+//@     each[C09] iter_calls(setIdle) == 1 && iter_arg(setIdle, 0, 1) == c && iter_callpos(setIdle, 0) < iter_callpos(chanSend, 0)
+//@     each[C02] cap(iter_arg(chanSend, 0, 0)) >= 1
+
+// closeWithErr (C07): as for TraditionalDnsConn.
+//@ func (c *reusableConn) closeWithErr [C07]
+//@   log reuseCloseWithErr
+//@   requires c != nil
+//@   modifies *
+//@   ensures calls(onceDo) == 1
+//@ func (c *reusableConn) closeWithErr$1 [C07, C09]
+//@   requires c != nil && err != nil
+//@   modifies *
+//@   ensures calls(chanClose) == 1 && arg(chanClose, 0, 0) == c.closeNotify && calls(Close) == 1 && arg(Close, 0, 0) == c.c
+//@   ensures closed(c.closeNotify)
+//@   ensures !atunlock(c in c.t.conns) && !atunlock(c in c.t.idleConns)
+//@ func (c *reusableConn) closeWithErrByTransport [C07]
+//@   requires c != nil
+//@   modifies *
+//@   ensures calls(onceDo) == 1
+//@ func (c *reusableConn) closeWithErrByTransport$1 [C07]
+//@   requires c != nil && err != nil
+//@   modifies *
+//@   ensures calls(chanClose) == 1 && arg(chanClose, 0, 0) == c.closeNotify && calls(Close) == 1 && arg(Close, 0, 0) == c.c
+//@   ensures closed(c.closeNotify)
+
+// getIdleConn / setIdle (C09, C01): a connection handed to a caller leaves the idle set in the same
+// critical section, so no second caller can get it while it is busy; only a live, registered
+// connection is put back.
+//@ func (t *ReuseConnTransport) getIdleConn [C09, C01]
+//@   log getIdleConn
+//@   requires t != nil
+//@   ensures atlock(t.closed) ==> result_0 == nil && result_1 != nil
+//@   ensures !atlock(t.closed) ==> result_1 == nil
+//@   ensures result_0 != nil ==> atlock(result_0 in t.idleConns) && !atunlock(result_0 in t.idleConns)
+//@   ensures result_0 == nil && !atlock(t.closed) ==> atlock(len(t.idleConns)) == 0
+//@   ensures forall k *reusableConn :: k != result_0 ==> (atunlock(k in t.idleConns) == atlock(k in t.idleConns))
+//@ func (t *ReuseConnTransport) setIdle [C09]
+//@   log setIdle
+//@   requires t != nil && c != nil
+//@   ensures atunlock(c in t.idleConns) == (atlock(c in t.idleConns) || (!atlock(t.closed) && atlock(c in t.conns)))
+//@   ensures forall k *reusableConn :: k != c ==> (atunlock(k in t.idleConns) == atlock(k in t.idleConns))
+//@   ensures forall k *reusableConn :: atunlock(k in t.conns) == atlock(k in t.conns)
+
+// ---------------------------------------------------------------------------------------------
+// The two connection interfaces. An exchanger returns exactly one of reply / error; a reply
+// holds at least a DNS header.
+//@ spec func rxOK(resp *[]byte, err error) bool = ((resp != nil) != (err != nil)) && (resp != nil ==> len(*resp) >= 12)
+// Assumed about implementations reached through these interfaces from a lazyDnsConn: the
+// connection a lazy connection dials is not itself a lazy connection, so its methods do not
+// touch the lazy connection's reservation ghost (the dial functions in pkg/upstream build
+// TraditionalDnsConn / quic connections).
+//@ interface ReservedExchanger.ExchangeReserved
+//@   log ExchangeReserved
+//@   params self, ctx, q
+//@   requires ctx != nil && len(q) >= 12
+//@   modifies *
+//@   preserves comp(lazyDnsConn.res)
+//@   ensures rxOK(resp, err)
+//@ interface ReservedExchanger.WithdrawReserved
+//@   log WithdrawReservedI
+//@   params self
+//@   modifies *
+//@   preserves comp(lazyDnsConn.res)
+//@ interface DnsConn.ReserveNewQuery
+//@   log ReserveNewQueryI
+//@   params self
+//@   modifies *
+//@   preserves comp(lazyDnsConn.res)
+//@ interface DnsConn.Close
+//@   log CloseI
+//@   params self
+//@   modifies *
+//@   preserves comp(lazyDnsConn.res)
+
+// ---------------------------------------------------------------------------------------------
+// lazyDnsConn: queries reserved while the dial is running.
+//   c / dialErr are written once (under mu) before dialFinished is closed and read without the
+//   lock after that close was observed; fastPath == 1 is stored only after c was set.
+//@ type lazyDnsConn
+//@   immutable maxConcurrentQuery, cancelDial, dialFinished
+//@   ghost res int
+//@   tracks reservedQuery by res
+//@   lock mu protects closed, reservedQuery
+//@   invariant mu: self.res >= 0 && self.reservedQuery >= self.res && (self.maxConcurrentQuery >= 0 ==> self.reservedQuery <= self.maxConcurrentQuery)
+//@   shared c, dialErr stable (closed(self.dialFinished) ==> self.c != nil || self.dialErr != nil) && (atomicwas(self.fastPath, 1) ==> self.c != nil)
+//@   invariant self.dialFinished != nil && self.cancelDial != nil
+
+// ReserveNewQuery (C09): while dialing, at most maxConcurrentQuery queries are queued and a
+// granted reservation is recorded; after the dial the real connection decides.
+//@ func (lc *lazyDnsConn) ReserveNewQuery [C09]
+//@   requires lc != nil
+//@   modifies *
+//@   ensures calls(pollEmpty) == 1 ==> ((result_0 != nil) == (atlock(lc.reservedQuery) < lc.maxConcurrentQuery)) && !closed
+//@   ensures calls(pollEmpty) == 1 && result_0 != nil ==> lc.res == old(lc.res) + 1 && atunlock(lc.reservedQuery) == atlock(lc.reservedQuery) + 1 && calls(wgAdd) == 1
+//@   ensures calls(pollEmpty) == 1 && result_0 == nil ==> lc.res == old(lc.res) && atunlock(lc.reservedQuery) == atlock(lc.reservedQuery) && calls(wgAdd) == 0
+//@   ensures calls(pollEmpty) == 0 ==> lc.res == old(lc.res)
+
+// Early exchanger (C09, C07): the queued reservation is given back exactly once on every path;
+// exactly one of reply / error is returned.
+//@ func (ote *lazyDnsConnEarlyReservedExchanger) ExchangeReserved [C09, C07]
+//@   requires ote != nil && ctx != nil && ote.res >= 1 && len(q) >= 12
+//@   modifies *
+//@   ensures[C07] rxOK(resp, err)
+//@   ensures ote.res == old(ote.res) - 1
+//@   ensures calls(wgDone) <= 1
+//@   ensures calls(ReserveNewQueryI) <= 1 && (calls(ReserveNewQueryI) == 1 ==> calls(wgDone) == 1 && callpos(wgDone, 0) > callpos(ReserveNewQueryI, 0))
+//@ func (ote *lazyDnsConnEarlyReservedExchanger) ExchangeReserved$1 [C09]
+//@   requires ote != nil && ote.res >= 1
+//@   modifies ote.res
+//@   ensures ote.res == old(ote.res) - 1
+//@   ensures atunlock(ote.reservedQuery) == atlock(ote.reservedQuery) - 1 && atunlock(ote.reservedQuery) >= 0
+//@ func (ote *lazyDnsConnEarlyReservedExchanger) WithdrawReserved [C09]
+//@   requires ote != nil && ote.res >= 1
+//@   modifies ote.res
+//@   ensures ote.res == old(ote.res) - 1
+//@   ensures atunlock(ote.reservedQuery) == atlock(ote.reservedQuery) - 1 && atunlock(ote.reservedQuery) >= 0
+//@   ensures calls(wgDone) == 1
